@@ -25,6 +25,7 @@ Variable parse_tree : mapper -> tz -> res (option T * mapper * tz).
 Variable set_label : T -> option str -> T.
 Variable add_comments : T -> list str -> T.
 Variable vl : bool.
+Variable vs : bool.
 Variable c : nscfg.
 Variable tlf : tl_factory.
 Variable et : bool.
@@ -38,9 +39,9 @@ Notation RTS := (r_trees_loop T lower upper parse_tree set_label add_comments vl
 Notation YTB := (y_trees_block T lower upper parse_tree set_label add_comments vl c et).
 Notation RTB := (r_parse_trees_block T lower upper parse_tree set_label add_comments vl c tlf et).
 Notation YBL := (y_blocks_loop T lower upper parse_tree set_label add_comments vl c et).
-Notation RBL := (r_blocks_loop T lower upper parse_tree set_label add_comments vl c tlf et).
+Notation RBL := (r_blocks_loop T lower upper parse_tree set_label add_comments vl c tlf et vs).
 Notation YST := (y_items_from_stream T lower upper parse_tree set_label add_comments vl c et).
-Notation RST := (r_parse_nexus_stream T lower upper parse_tree set_label add_comments vl c tlf et).
+Notation RST := (r_parse_nexus_stream T lower upper parse_tree set_label add_comments vl c tlf et vs).
 Notation trel := (trees_rel T tlf).
 
 Lemma ybind_ok_inv : forall X Y (a : yres T X) (f : X -> yres T Y) out y,
@@ -147,6 +148,11 @@ Definition NoSets (l : list token) : Prop :=
 Lemma NoSets_suf : forall a b, suf a b -> NoSets b -> NoSets a.
 Proof. intros a b. apply suf_Forall. Qed.
 
+(* either the reader skips such blocks like the iterator does (repaired form), or the document has none *)
+Definition SetsOk (l : list token) : Prop := vs = true \/ NoSets l.
+Lemma SetsOk_suf : forall a b, suf a b -> SetsOk b -> SetsOk a.
+Proof. intros a b S [H|H]; [left; assumption | right; eapply NoSets_suf; eassumption]. Qed.
+
 (* the current token after next_token_ucase is an upper-cased token of the document, or None *)
 Lemma next_token_ucase_cur : forall z z',
   next_token_ucase upper z = Ok z' -> NoSets (z_toks z) ->
@@ -179,6 +185,30 @@ Proof.
   unfold ksuf. apply next_token_ucase_suf in E4. simpl in *. suf_chain.
 Qed.
 
+Lemma next_token_ucase_up : forall z z',
+  next_token_ucase upper z = Ok z' -> (z_cur z' = None \/ exists x, z_cur z' = Some (upper x)).
+Proof.
+  intros z z' H. unfold next_token_ucase, fetch in H.
+  destruct (z_toks z) as [|t r] eqn:E.
+  - destruct (z_end z); cbn [bind] in H; [|discriminate]. inversion H; subst. simpl. auto.
+  - cbn [bind] in H. inversion H; subst. simpl. right. exists (t_text t). reflexivity.
+Qed.
+
+Lemma block_head_up : forall fuel k k4,
+  block_head upper fuel k = Ok k4 ->
+  ksuf k4 k /\ (z_cur (k_z k4) = None \/ exists x, z_cur (k_z k4) = Some (upper x)).
+Proof.
+  intros fuel k k4 H. unfold block_head in H.
+  destruct (zstep k (next_token_ucase upper)) as [k1|e|] eqn:E1; cbn [bind] in H; try discriminate.
+  destruct (zstep k1 (scan_begin upper fuel)) as [k2|e|] eqn:E2; cbn [bind] in H; try discriminate.
+  apply zstep_suf in E1; [|apply next_token_ucase_suf].
+  apply zstep_suf in E2; [|apply scan_begin_suf].
+  unfold zstep in H.
+  destruct (next_token_ucase upper (k_z (set_z k2 (clear_comments (k_z k2))))) as [z4|e|] eqn:E4; cbn [bind] in H; try discriminate.
+  inversion H; subst. cbn [k_z set_z] in *. split; [|eapply next_token_ucase_up; eassumption].
+  unfold ksuf in *. apply next_token_ucase_suf in E4. simpl in *. suf_chain.
+Qed.
+
 Lemma cast_ucase_upper : forall z, (z_cur z = None \/ exists x, z_cur z = Some (upper x)) -> cast_ucase upper z = z.
 Proof.
   intros z H. destruct z as [cur qd eof com toks e]. unfold cast_ucase, cur_falsy, set_cur, cur_text. simpl in *.
@@ -189,7 +219,7 @@ Qed.
 Ltac kw_ne := let H := fresh in intro H; vm_compute in H; discriminate H.
 
 Lemma blocks_loop_agree : forall fuel k g tls reg,
-  wf T tlf tls reg None -> NoSets (z_toks (k_z k)) ->
+  wf T tlf tls reg None -> SetsOk (z_toks (k_z k)) ->
   trel tls (fst (YBL fuel k g)) (snd (YBL fuel k g)) (RBL fuel (mkRs k g tls reg)).
 Proof.
   induction fuel as [|f IH]; intros k g tls reg W N; [simpl; reflexivity|].
@@ -198,14 +228,14 @@ Proof.
   2:{ simpl. exists tls, reg, None. repeat split; auto. rewrite app_nil_r. reflexivity. }
   rewrite ybind_ylift.
   destruct (block_head upper (S f) k) as [k4|e|] eqn:EH; cbn [bind]; try (simpl; reflexivity).
-  destruct (block_head_props _ _ _ EH N) as [S4 [NS UP]].
-  assert (N4 : NoSets (z_toks (k_z k4))) by (eapply NoSets_suf; eassumption).
+  destruct (block_head_up _ _ _ EH) as [S4 UP].
+  assert (N4 : SetsOk (z_toks (k_z k4))) by (eapply SetsOk_suf; eassumption).
   set (token := z_cur (k_z k4)) in *.
   destruct (otok_is token K_TAXA) eqn:ETAXA.
   { rewrite ybind_ylift.
     destruct (parse_taxa_block lower upper c (S f) k4 g) as [[k5 g5]|e|] eqn:E5; cbn [bind]; try (simpl; reflexivity).
     apply IH; [assumption|].
-    apply parse_taxa_block_suf in E5. eapply NoSets_suf; eassumption. }
+    apply parse_taxa_block_suf in E5. eapply SetsOk_suf; eassumption. }
   destruct (otok_is token K_CHARACTERS || otok_is token K_DATA) eqn:ECH.
   { (* the reader's exclude_chars branch = the iterator's unknown-block branch *)
     assert (ETR : otok_is token K_TREES = false).
@@ -222,29 +252,42 @@ Proof.
     fold token.
     destruct (zstep k4 (consume_to_end_of_block upper (S f) token)) as [k5|e|] eqn:E5; cbn [bind]; try (simpl; reflexivity).
     apply IH; [assumption|].
-    apply zstep_suf in E5; [|apply consume_suf]. eapply NoSets_suf; eassumption. }
+    apply zstep_suf in E5; [|apply consume_suf]. eapply SetsOk_suf; eassumption. }
   destruct (otok_is token K_TREES) eqn:ETR.
   { pose proof (trees_block_agree (S f) k4 g tls reg W) as HB.
     destruct (YTB (S f) k4 g) as [out1 r1] eqn:EY. simpl fst in HB. simpl snd in HB. unfold ybind.
     destruct r1 as [[k5 g5]|e|]; simpl in HB.
     - destruct HB as [tls' [reg' [tb' [E [W' F]]]]]. rewrite E. cbn [bind].
       apply y_trees_block_suf in EY.
-      assert (N5 : NoSets (z_toks (k_z k5))) by (eapply NoSets_suf; eassumption).
+      assert (N5 : SetsOk (z_toks (k_z k5))) by (eapply SetsOk_suf; eassumption).
       specialize (IH k5 g5 tls' reg' (wf_forget T tlf _ _ _ W') N5).
       destruct (YBL f k5 g5) as [out2 r2]. simpl fst in *. simpl snd in *.
       eapply trees_rel_app; eassumption.
     - rewrite HB. reflexivity.
     - rewrite HB. reflexivity. }
-  unfold token in NS. fold token in NS. rewrite NS.
+  destruct (is_sets_kw token) eqn:ES.
+  { (* a SETS / ASSUMPTIONS / CODONS block *)
+    assert (EBG : otok_is token K_BEGIN = false).
+    { unfold is_sets_kw in ES. apply orb_true_iff in ES. destruct ES as [ES|ES]; [apply orb_true_iff in ES; destruct ES as [ES|ES]|];
+        [apply (otok_is_other token K_SETS K_BEGIN) | apply (otok_is_other token K_ASSUMPTIONS K_BEGIN)
+         | apply (otok_is_other token K_CODONS K_BEGIN)]; auto; kw_ne. }
+    destruct N as [VS|NS].
+    - (* repaired form: both skip it *)
+      rewrite EBG. rewrite VS at 1. cbv iota. rewrite ybind_ylift.
+      destruct (zstep k4 (consume_to_end_of_block upper (S f) token)) as [k5|e|] eqn:E5; cbn [bind]; try (simpl; reflexivity).
+      apply IH; [assumption|].
+      apply zstep_suf in E5; [|apply consume_suf]. eapply SetsOk_suf; eassumption.
+    - (* form as found: the document has no such block *)
+      exfalso. destruct (block_head_props _ _ _ EH NS) as [_ [X _]]. fold token in X. congruence. }
   destruct (otok_is token K_BEGIN); [simpl; reflexivity|].
   rewrite ybind_ylift.
   destruct (zstep k4 (consume_to_end_of_block upper (S f) token)) as [k5|e|] eqn:E5; cbn [bind]; try (simpl; reflexivity).
   apply IH; [assumption|].
-  apply zstep_suf in E5; [|apply consume_suf]. eapply NoSets_suf; eassumption.
+  apply zstep_suf in E5; [|apply consume_suf]. eapply SetsOk_suf; eassumption.
 Qed.
 
 Lemma stream_agree : forall fuel k g tls reg,
-  wf T tlf tls reg None -> NoSets (z_toks (k_z k)) ->
+  wf T tlf tls reg None -> SetsOk (z_toks (k_z k)) ->
   trel tls (fst (YST fuel k g)) (snd (YST fuel k g)) (RST fuel (mkRs k g tls reg)).
 Proof.
   intros fuel k g tls reg W N. unfold y_items_from_stream, r_parse_nexus_stream. cbn [r_k r_g r_tls r_tlreg].
@@ -253,7 +296,7 @@ Proof.
   destruct (z_cur (k_z k1)) as [t|]; [|simpl; reflexivity].
   destruct (negb (str_eqb (upper t) K_NEXUS)); [simpl; reflexivity|].
   apply blocks_loop_agree; [assumption|].
-  apply zstep_suf in E1; [|apply require_next_token_suf]. eapply NoSets_suf; eassumption.
+  apply zstep_suf in E1; [|apply require_next_token_suf]. eapply SetsOk_suf; eassumption.
 Qed.
 
 End Blocks.
